@@ -140,7 +140,11 @@ func InitEventSender(cfg *EventConfig) (S3EventSender, error) {
 }
 
 func createEventSchema(ctx *fiber.Ctx, meta EventMeta, configId ConfigurationId) EventSchema {
-	path := strings.Split(ctx.Path(), "/")
+	// The event is serialized and sent by another goroutine after the
+	// handler has returned, when the http server may already be reusing the
+	// request buffers for the next request: copy every string taken from
+	// the request context.
+	path := strings.Split(strings.Clone(ctx.Path()), "/")
 	bucket, object := path[1], strings.Join(path[2:], "/")
 	acc := ctx.Locals("account").(auth.Account)
 
@@ -159,8 +163,8 @@ func createEventSchema(ctx *fiber.Ctx, meta EventMeta, configId ConfigurationId)
 					SourceIPAddress: ctx.IP(),
 				},
 				ResponseElements: EventResponseElements{
-					RequestId: ctx.Get("X-Amz-Request-Id"),
-					HostId:    ctx.Get("X-Amz-Id-2"),
+					RequestId: strings.Clone(ctx.Get("X-Amz-Request-Id")),
+					HostId:    strings.Clone(ctx.Get("X-Amz-Id-2")),
 				},
 				S3: EventS3Data{
 					S3SchemaVersion: "1.0",
